@@ -107,4 +107,49 @@ def c13(tier, seed):
             "assumptions": ASSUME}
 
 
-PLANS = {"C04": c04, "C05": c05, "C12": c12, "C13": c13}
+RINV = ["Responsible", "Exclusive", "OnTarget", "CtrLeft", "Ok"]
+
+
+def rconsts(nodes=3, removers=2, disp=1, enq=0, depth=1, counts=(1,), ops=(), nest=(), defects=()):
+    return {"MaxNodes": nodes, "MaxRemovers": removers, "MaxDisp": disp, "MaxEnq": enq, "MaxDepth": depth, "Counts": set(counts),
+            "Ops": set(ops), "NestOps": set(nest), "Defects": set(defects)}
+
+
+def c15(tier, seed):
+    quick = tier == "quick"
+    sops = {"al", "rl", "sa", "sp", "sr", "sx", "st", "sc", "sm", "ss", "sd", "sn", "dp"}
+    models = [{"module": "RemGen", "tag": "scoped", "invariants": RINV,
+               "constants": rconsts(nodes=2 if quick else 3, removers=2 if quick else 3, disp=1, ops=sops if not quick else sops - {"sp"},
+                                    nest={"sr", "sx"} if quick else {"sr", "sx", "sd"})}]
+    worlds = [world("r_disp", obj=0), world("r_queue_multi_str", obj=1, threading=1, key=1, arg=1, fraction=0.35, fill="0xFF"),
+              world("r_disp_spin_incl", obj=0, threading=2, mode=1, key=2, fraction=0.2, fill="0x00")]
+    return {"interp": "harness/dq_interp.cpp", "trace_module": "TraceDQ", "models": models, "worlds": worlds,
+            "defects": [{"module": "RemGen", "constants": rconsts(nodes=2, removers=2, ops=sops, nest=set()), "invariants": RINV, "defect": "orphan"}],
+            "nontrivial_key": "scripts",
+            "rule": "every transition of the bounded RemGen reference model: listeners added directly and through up to 2-3 ScopedRemovers over two "
+                    "dispatchers, remove through a remover (own / foreign / stale handles), reset, setDispatcher, move construction, move assignment "
+                    "into empty and non-empty removers, swap, destruction in every order, with dispatches in between and remover operations issued "
+                    "from listeners; every script ends by destroying all removers and probing both dispatchers; TraceDQ.tla keeps who answers for "
+                    "which listener; non-trivial: every script (each is a distinct history ending in a different operation)",
+            "assumptions": ASSUME + ["ScopedRemover over CallbackList targets shares its code shape with the dispatcher specialisation and is exercised by the C10/C09 list worlds only"]}
+
+
+def c16(tier, seed):
+    quick = tier == "quick"
+    ops = {"al", "rl", "ac", "ak", "dp", "nq", "po"}
+    models = [{"module": "RemGen", "tag": "counter-cond", "invariants": RINV,
+               "constants": rconsts(nodes=2 if quick else 3, removers=1, disp=2 if quick else 3, enq=1 if quick else 2, depth=2,
+                                    counts=(-1, 0, 1, 2, 3) if not quick else (0, 2),
+                                    ops=ops, nest={"dp", "rl", "al"} if not quick else {"dp", "rl"})}]
+    worlds = [world("k_queue", obj=1), world("k_queue_incl_str", obj=1, mode=1, key=1, arg=1, threading=1, fraction=0.3, fill="0xFF"),
+              world("k_queue_ref_hash", obj=1, arg=2, key=3, fraction=0.2, fill="0x00")]
+    return {"interp": "harness/dq_interp.cpp", "trace_module": "TraceDQ", "models": models, "worlds": worlds,
+            "nontrivial_key": "nested",
+            "rule": "every transition of the bounded RemGen reference model with CounterRemover listeners (trigger counts incl. zero and negative) and "
+                    "ConditionalRemover listeners (scripted condition outcome per trigger), triggered by direct dispatch, by nested re-dispatch of the "
+                    "same event from the wrapped listener, and through enqueue + processOne, with other listeners present and removed; the helper "
+                    "objects are temporaries destroyed right after registration; non-trivial = an operation ran inside a listener or condition",
+            "assumptions": ASSUME + ["heterogeneous targets of the removers are not driven (see DESIGN.md section 8)"]}
+
+
+PLANS = {"C04": c04, "C05": c05, "C12": c12, "C13": c13, "C15": c15, "C16": c16}
